@@ -149,3 +149,50 @@ v("c13-rule-unregistered", "C13", "REGISTRY", V + "specified_rules.py",
 v("c13-error-dropped", "C13", "ERROR-DISCIPLINE", V + "rules/known_fragment_names.py",
   "            self.report_error(\n                GraphQLError(f\"Unknown fragment '{fragment_name}'.\", node.name)\n            )",
   "            error = GraphQLError(f\"Unknown fragment '{fragment_name}'.\", node.name)")
+
+# -- C15 / C16 ----------------------------------------------------------------------------------
+T = "src/graphql/type/"
+U = "src/graphql/utilities/"
+v("c15-unfix-float-literal", "C15", "DOMAIN-GUARDS", T + "scalars.py",
+  "    num = float(value_node.value)\n    if not isfinite(num):\n        raise GraphQLError(\n            \"Float cannot represent non numeric value: \" + print_ast(value_node),\n            value_node,\n        )\n    return num",
+  "    return float(value_node.value)")
+v("c15-int-literal-range-dropped", "C15", "DOMAIN-GUARDS", T + "scalars.py",
+  "    num = int(value_node.value)\n    if not GRAPHQL_MIN_INT <= num <= GRAPHQL_MAX_INT:",
+  "    num = int(value_node.value)\n    if not GRAPHQL_MIN_INT <= num:")
+v("c15-max-int-wrong", "C15", "DOMAIN-GUARDS", T + "scalars.py", "GRAPHQL_MAX_INT = 2_147_483_647", "GRAPHQL_MAX_INT = 2_147_483_648")
+v("c15-coerce-int-accepts-bool", "C15", "BOOL-EXCLUSION", T + "scalars.py",
+  "    if isinstance(input_value, (int, float)) and not isinstance(input_value, bool):\n        return coerce_int_from_number(input_value)\n    msg = \"Int cannot represent non-integer value: \" + inspect(input_value)",
+  "    if isinstance(input_value, (int, float)):\n        return coerce_int_from_number(input_value)\n    msg = \"Int cannot represent non-integer value: \" + inspect(input_value)")
+v("c15-unfix-regex-anchor", "C15", "REGEX-ANCHOR", U + "value_to_literal.py",
+  '_re_integer_string = re.compile(r"^-?(?:0|[1-9][0-9]*)\\Z")', '_re_integer_string = re.compile("^-?(?:0|[1-9][0-9]*)$")')
+v("c15-coercer-drops-oneof-null", "C15", "SIBLING-ATOMS", U + "coerce_input_value.py",
+  "            if coerced_dict[keys[0]] is None:\n                # Invalid: value not non-null, intentionally return no value.\n                return Undefined\n", "")
+v("c15-validator-drops-unknown-field", "C15", "SIBLING-ATOMS", U + "validate_input_value.py",
+  "            if field_name not in field_defs:\n                suggestion = (\n                    \"\"\n                    if hide_suggestions\n                    else did_you_mean(suggestion_list(field_name, list(field_defs)))\n                )\n                report_invalid_value(",
+  "            if False:\n                suggestion = (\n                    \"\"\n                    if hide_suggestions\n                    else did_you_mean(suggestion_list(field_name, list(field_defs)))\n                )\n                report_invalid_value(")
+v("c15-literal-coercer-leaf-unwrapped", "C15", "SIBLING-ATOMS", U + "coerce_input_value.py",
+  "    except Exception:  # noqa: BLE001\n        # Invalid: ignore error and intentionally return no value.\n        return Undefined\n\n\ndef coerce_default_value(",
+  "    except GraphQLError:  # noqa: BLE001\n        # Invalid: ignore error and intentionally return no value.\n        return Undefined\n\n\ndef coerce_default_value(")
+v("c15-literal-coercer-required-dropped", "C15", "SIBLING-ATOMS", U + "coerce_input_value.py",
+  "            ):\n                if is_required_input_field(field):\n                    return Undefined  # Invalid: intentionally return no value.\n",
+  "            ):\n")
+v("c16-serialize-int-range-dropped", "C16", "DOMAIN-GUARDS", T + "scalars.py",
+  "    if not GRAPHQL_MIN_INT <= value <= GRAPHQL_MAX_INT:\n        msg = \"Int cannot represent non 32-bit signed integer value: \" + inspect(value)\n        raise GraphQLError(msg)\n    return int(value)",
+  "    return int(value)")
+v("c16-float-from-string-nonfinite", "C16", "DOMAIN-GUARDS", T + "scalars.py",
+  "    if not isfinite(num):\n        msg = \"Float cannot represent non numeric value: \" + inspect(value)\n        raise GraphQLError(msg)\n    return num", "    return num")
+v("c16-float-from-number-nonfinite", "C16", "DOMAIN-GUARDS", T + "scalars.py",
+  "    if not isfinite(value):\n        msg = \"Float cannot represent non numeric value: \" + inspect(value)\n        raise GraphQLError(msg)\n    return float(value)", "    return float(value)")
+v("c16-serialize-id-any", "C16", "TYPED-RETURNS", T + "scalars.py",
+  "    if isinstance(output_value, (int, float)) and not isinstance(output_value, bool):\n        return coerce_id_from_number(output_value)\n    # do not serialize builtin types as IDs",
+  "    if isinstance(output_value, (int, float)) and not isinstance(output_value, bool):\n        return coerce_id_from_number(output_value)\n    if isinstance(output_value, bytes):\n        return output_value  # type: ignore\n    # do not serialize builtin types as IDs")
+v("c16-serialize-boolean-returns-int", "C16", "TYPED-RETURNS", T + "scalars.py",
+  "    if isinstance(output_value, int):\n        return output_value != 0\n    raise GraphQLError(\n        \"Boolean cannot represent",
+  "    if isinstance(output_value, int):\n        return output_value  # type: ignore\n    raise GraphQLError(\n        \"Boolean cannot represent")
+v("c16-enum-scan-returns-value", "C16", "ENUM-DOMAIN", T + "definition.py",
+  "                if enum_value.value == output_value:\n                    return enum_name", "                if enum_value.value == output_value:\n                    return enum_value.value")
+v("c16-leaf-none-accepted", "C16", "NULL-REJECT", "src/graphql/execution/executor.py",
+  "        if coerced is Undefined or coerced is None:", "        if coerced is Undefined:")
+v("c16-serialize-int-bool-order", "C16", "BOOL-EXCLUSION", T + "scalars.py",
+  "def serialize_int(output_value: Any) -> int:\n    if isinstance(output_value, bool):\n        return 1 if output_value else 0\n    if isinstance(output_value, (int, float)):",
+  "def serialize_int(output_value: Any) -> int:\n    if isinstance(output_value, (int, float)):")
